@@ -194,7 +194,7 @@ func emitOpen(c *driverCtx, prop string, rf readerFile) string {
 // reader kinds: what is handed to ReadFile (any io.Reader + io.ByteReader) and, after a "+", what the callback does
 // with the banks it is given: nothing until the end (default), close every bank as soon as the record has been looked
 // at ("+close"), or close every other one at once and keep the rest ("+closesome")
-var readerKinds = []string{"bytes", "bufio", "onebyte", "chunk", "buffer", "strings", "bytes+close", "bufio+closesome", "buffer+closesome", "chunk+close", "strings+closesome", "bytes+nested", "bufio+nested"}
+var readerKinds = []string{"bytes", "bufio", "onebyte", "chunk", "buffer", "strings", "bytes+close", "bufio+closesome", "buffer+closesome", "chunk+close", "strings+closesome", "bytes+nested", "bufio+nested", "eagereof", "eagereof+close"}
 
 func driveC08(c *driverCtx) error {
 	typ := reflect.TypeFor[RRec]()
@@ -365,6 +365,10 @@ func driveC07(c *driverCtx) error {
 		{"badmagic", append([]byte{'O', 'b', 'j', 2}, good[4:]...)},
 		{"unknowncodec", buildContainer(schemaJSON, "bzip2", true, sync, [][2]any{{1, raw}})},
 		{"noschema", replaceOnce(good, []byte("avro.schema"), []byte("avro.schemx"))},
+		{"unknowncodec-empty", buildContainer(schemaJSON, "", true, sync, [][2]any{{1, raw}})},
+		{"unknowncodec-upper", buildContainer(schemaJSON, "NULL", true, sync, [][2]any{{1, raw}})},
+		{"unknowncodec-space", buildContainer(schemaJSON, " null", true, sync, [][2]any{{1, raw}})},
+		{"unknowncodec-zstd", buildContainer(schemaJSON, "zstandard", true, sync, [][2]any{{1, raw}})},
 	}
 	for _, v := range variants {
 		c.rec.NewCase()
